@@ -1,5 +1,353 @@
-use crate::common::Ctx;
-pub fn run(_ctx: &Ctx, _replay: Option<&serde_json::Value>) -> i32 {
-    eprintln!("not implemented");
-    2
+//! C12 — equality and ordering are coherent.
+//!
+//! The full pool x pool matrix of the six dot operators, the four u* built-ins, the plain
+//! comparison operators on scalars and `sort` of each pair is evaluated through the evaluator;
+//! the laws are then checked on every pair and (transitivity) on every triple of the matrix,
+//! and every entry is compared with the harness's reference equality / ordering.
+
+use crate::alpha::*;
+use crate::common::*;
+use serde_json::{Value as J, json};
+use std::cmp::Ordering;
+
+fn pool(thorough: bool) -> Vec<RV> {
+    let n = RV::Num;
+    let s = RV::s;
+    let l = RV::List;
+    let r = |v: Vec<(&str, RV)>| RV::Rec(v.into_iter().map(|(k, v)| (k.to_string(), v)).collect());
+    let mut p = vec![
+        n(0.0),
+        n(-0.0),
+        n(1.0),
+        n(-1.0),
+        n(1.5),
+        n(2.0),
+        n(f64::INFINITY),
+        n(f64::NEG_INFINITY),
+        n(1e308),
+        n(5e-324),
+        s(""),
+        s("a"),
+        s("ab"),
+        s("abc"),
+        s("b"),
+        s("B"),
+        s("a b"),
+        s("\u{e9}"),
+        s("e\u{301}"),
+        s("z"),
+        s("\u{1f600}"),
+        s("\u{ffff}"),
+        RV::Bool(true),
+        RV::Bool(false),
+        RV::Null,
+        l(vec![]),
+        l(vec![n(1.0)]),
+        l(vec![n(1.0), n(2.0)]),
+        l(vec![n(1.0), n(2.0), n(3.0)]),
+        l(vec![n(1.0), n(3.0)]),
+        l(vec![n(2.0)]),
+        l(vec![n(0.0)]),
+        l(vec![n(-0.0)]),
+        l(vec![s("a")]),
+        l(vec![s("a"), s("b")]),
+        l(vec![s("b")]),
+        l(vec![n(1.0), s("a")]),
+        l(vec![s("a"), n(1.0)]),
+        l(vec![l(vec![])]),
+        l(vec![l(vec![n(1.0)])]),
+        l(vec![l(vec![n(1.0)]), n(2.0)]),
+        l(vec![l(vec![n(1.0), n(2.0)])]),
+        l(vec![RV::Null]),
+        l(vec![RV::Bool(true)]),
+        l(vec![RV::Bool(false), RV::Bool(true)]),
+        r(vec![]),
+        r(vec![("a", n(1.0))]),
+        r(vec![("a", n(1.0)), ("b", n(2.0))]),
+        r(vec![("b", n(2.0)), ("a", n(1.0))]),
+        r(vec![("a", n(2.0)), ("b", n(1.0))]),
+        r(vec![("a", n(1.0)), ("b", n(2.0)), ("c", n(3.0))]),
+        r(vec![("a", l(vec![n(1.0)]))]),
+        r(vec![("a", r(vec![("b", n(1.0))]))]),
+        r(vec![("a", RV::Null)]),
+        r(vec![("b", n(1.0))]),
+        l(vec![r(vec![("a", n(1.0)), ("b", n(2.0))])]),
+        l(vec![r(vec![("b", n(2.0)), ("a", n(1.0))])]),
+    ];
+    if thorough {
+        p.extend([
+            n(3.0),
+            n(0.1),
+            n(9007199254740992.0),
+            n(9007199254740993.0),
+            s("A"),
+            s("aa"),
+            s("a\u{0}"),
+            s("a\n"),
+            s("10"),
+            s("9"),
+            l(vec![n(1.0), n(2.0), n(4.0)]),
+            l(vec![n(1.0), l(vec![])]),
+            l(vec![s("ab")]),
+            l(vec![s("a"), s("")]),
+            l(vec![n(f64::INFINITY)]),
+            r(vec![("", n(1.0))]),
+            r(vec![("a", n(1.0)), ("c", n(2.0))]),
+            r(vec![("a", s("1"))]),
+            l(vec![RV::Null, RV::Null]),
+            l(vec![l(vec![l(vec![])])]),
+        ]);
+    }
+    p
+}
+
+const DOTS: [&str; 6] = [".==", ".!=", ".<", ".<=", ".>", ".>="];
+const US: [&str; 4] = ["ugt", "ult", "ugte", "ulte"];
+
+/// Observed result: Some(bool) or None for an error.
+type Cell = Option<bool>;
+
+fn as_cell(o: &Outcome) -> Result<Cell, String> {
+    match o {
+        Outcome::Ok(s) if s == "true" => Ok(Some(true)),
+        Outcome::Ok(s) if s == "false" => Ok(Some(false)),
+        Outcome::EvalError(_) => Ok(None),
+        other => Err(format!("{:?}", other)),
+    }
+}
+
+pub fn run(ctx: &Ctx, replay: Option<&J>) -> i32 {
+    if let Some(r) = replay {
+        let src = r["case"]["src"].as_str().unwrap_or("");
+        let o = eval_fresh(src);
+        println!("input: {}\nobserved: {:?}\nexpected: {}", src, o, r["expected"]);
+        return 1;
+    }
+    let p = pool(!ctx.quick());
+    let n = p.len();
+    ctx.set("pool_size", json!(n));
+    // bind the pool once per worker session: `p0 = ...; p1 = ...`
+    let prelude: String = p.iter().enumerate().map(|(i, v)| format!("p{} = {}\n", i, v.src())).collect();
+
+    // row i: all results against every j
+    struct Row {
+        dots: Vec<[Cell; 6]>,
+        us: Vec<[Cell; 4]>,
+        plain: Vec<[Option<String>; 6]>,
+        sorts: Vec<Option<String>>,
+        bad: Vec<String>,
+    }
+    let rows: Vec<Row> = par_map(&(0..n).collect::<Vec<_>>(), |&i| {
+        let mut sess = Session::new();
+        let o = sess.run(&prelude);
+        let mut row = Row { dots: vec![], us: vec![], plain: vec![], sorts: vec![], bad: vec![] };
+        if !o.is_ok() {
+            row.bad.push(format!("prelude failed: {:?}", o));
+            return row;
+        }
+        for j in 0..n {
+            let mut d: [Cell; 6] = [None; 6];
+            for (k, op) in DOTS.iter().enumerate() {
+                match as_cell(&sess.run(&format!("p{} {} p{}", i, op, j))) {
+                    Ok(c) => d[k] = c,
+                    Err(e) => row.bad.push(format!("p{} {} p{}: {}", i, op, j, e)),
+                }
+            }
+            row.dots.push(d);
+            let mut u: [Cell; 4] = [None; 4];
+            for (k, f) in US.iter().enumerate() {
+                match as_cell(&sess.run(&format!("{}(p{}, p{})", f, i, j))) {
+                    Ok(c) => u[k] = c,
+                    Err(e) => row.bad.push(format!("{}(p{}, p{}): {}", f, i, j, e)),
+                }
+            }
+            row.us.push(u);
+            let mut pl: [Option<String>; 6] = Default::default();
+            for (k, op) in ["==", "!=", "<", "<=", ">", ">="].iter().enumerate() {
+                pl[k] = match sess.run(&format!("p{} {} p{}", i, op, j)) {
+                    Outcome::Ok(s) => Some(s),
+                    _ => None,
+                };
+            }
+            row.plain.push(pl);
+            row.sorts.push(match sess.run(&format!("sort([p{}, p{}])", i, j)) {
+                Outcome::Ok(s) => Some(s),
+                _ => None,
+            });
+        }
+        row
+    });
+    ctx.count(n * n * 17);
+    for row in &rows {
+        for b in &row.bad {
+            ctx.machinery_error(b.clone());
+        }
+    }
+    if !ctx.machinery_errors.lock().unwrap().is_empty() {
+        return finish(ctx, "exploration", "", false, None);
+    }
+
+    let v = |kind: &str, i: usize, j: usize, k: Option<usize>, exp: String, obs: String| {
+        let names = match k {
+            Some(k) => format!("{} ; {} ; {}", p[i].src(), p[j].src(), p[k].src()),
+            None => format!("{} ; {}", p[i].src(), p[j].src()),
+        };
+        ctx.violation(Violation {
+            kind: kind.to_string(),
+            class: format!("{}~{}", p[i].type_name(), p[j].type_name()),
+            input: names,
+            expected: exp,
+            observed: obs,
+            case: json!({"src": format!("[{a} .== {b}, {a} .< {b}, {a} .> {b}]", a = p[i].src(), b = p[j].src())}),
+        });
+    };
+
+    // pairwise laws + reference model
+    for i in 0..n {
+        for j in 0..n {
+            let d = rows[i].dots[j];
+            let (eq, ne, lt, le, gt, ge) = (d[0], d[1], d[2], d[3], d[4], d[5]);
+            ctx.nontrivial(&format!("pair:{}:{}", i, j));
+            // reference
+            let req = p[i].equals(&p[j]);
+            let rcmp = p[i].compare(&p[j]);
+            if eq != Some(req) {
+                v("equality-vs-reference", i, j, None, format!("{}", req), format!("{:?}", eq));
+            }
+            let want = |f: fn(Ordering) -> bool| rcmp.map(f);
+            let checks: [(Cell, Cell, &str); 4] = [
+                (lt, want(|o| o == Ordering::Less), ".<"),
+                (le, want(|o| o != Ordering::Greater), ".<="),
+                (gt, want(|o| o == Ordering::Greater), ".>"),
+                (ge, want(|o| o != Ordering::Less), ".>="),
+            ];
+            for (got, exp, name) in checks {
+                if got != exp {
+                    v("ordering-vs-reference", i, j, None, format!("{} -> {:?}", name, exp), format!("{:?}", got));
+                }
+            }
+            ctx.outcome(match rcmp {
+                Some(Ordering::Less) => "less",
+                Some(Ordering::Equal) => "equal",
+                Some(Ordering::Greater) => "greater",
+                None => "unordered",
+            });
+            // internal laws (independent of the reference)
+            if eq.is_none() || ne.is_none() {
+                v("equality-fails", i, j, None, "a boolean".into(), format!("{:?} {:?}", eq, ne));
+            } else if ne != eq.map(|b| !b) {
+                v("negation", i, j, None, format!(".!= is not(.==) = {:?}", eq.map(|b| !b)), format!("{:?}", ne));
+            }
+            if i == j && eq != Some(true) {
+                v("reflexivity", i, j, None, "true".into(), format!("{:?}", eq));
+            }
+            if rows[j].dots[i][0] != eq {
+                v("symmetry", i, j, None, format!("{:?}", eq), format!("{:?}", rows[j].dots[i][0]));
+            }
+            match (lt, gt, eq) {
+                (Some(a), Some(b), Some(c)) => {
+                    // comparable: exactly one holds, unions
+                    if (a as u8 + b as u8 + c as u8) != 1 {
+                        v("trichotomy", i, j, None, "exactly one of .< .== .>".into(), format!("{} {} {}", a, c, b));
+                    }
+                    if le != Some(a || c) || ge != Some(b || c) {
+                        v("unions", i, j, None, format!(".<= {} .>= {}", a || c, b || c), format!("{:?} {:?}", le, ge));
+                    }
+                    // antisymmetry with the transposed entry
+                    if rows[j].dots[i][4] != Some(a) || rows[j].dots[i][2] != Some(b) {
+                        v("converse", i, j, None, "a .< b iff b .> a".into(), format!("{:?}", rows[j].dots[i]));
+                    }
+                }
+                (None, None, _) => {
+                    if le.is_some() || ge.is_some() {
+                        v("partial-failure", i, j, None, "all four ordering operators fail together".into(), format!("{:?}", d));
+                    }
+                    // different or unordered types: never equal unless same type & equal
+                    if p[i].type_name() != p[j].type_name() && eq != Some(false) {
+                        v("cross-type-equal", i, j, None, "false".into(), format!("{:?}", eq));
+                    }
+                }
+                _ => v("partial-failure", i, j, None, "all ordering operators succeed or fail together".into(), format!("{:?}", d)),
+            }
+            if p[i].type_name() != p[j].type_name() {
+                if eq != Some(false) || lt.is_some() {
+                    v("cross-type", i, j, None, "unequal and unordered".into(), format!("{:?}", d));
+                }
+            }
+            // u* agree with the operators when those succeed, false otherwise
+            let u = rows[i].us[j];
+            let exp_u = [gt.unwrap_or(false), lt.unwrap_or(false), ge.unwrap_or(false), le.unwrap_or(false)];
+            for k in 0..4 {
+                if u[k] != Some(exp_u[k]) {
+                    v("unchecked-builtin", i, j, None, format!("{} -> {}", US[k], exp_u[k]), format!("{:?}", u[k]));
+                }
+            }
+            // plain operators on two non-lists equal the dot operators
+            if !p[i].is_list() && !p[j].is_list() {
+                for k in 0..6 {
+                    let want = d[k].map(|b| b.to_string());
+                    if rows[i].plain[j][k] != want {
+                        v("plain-vs-dot", i, j, None, format!("{:?}", want), format!("{:?}", rows[i].plain[j][k]));
+                    }
+                }
+            }
+            // sort of the pair: ordered when comparable, a permutation always
+            let a = p[i].canon();
+            let b = p[j].canon();
+            let fwd = format!("[{}, {}]", a, b);
+            let rev = format!("[{}, {}]", b, a);
+            match &rows[i].sorts[j] {
+                None => v("sort-fails", i, j, None, "a list".into(), "error".into()),
+                Some(sv) => {
+                    let expect = match rcmp {
+                        Some(Ordering::Greater) => &rev,
+                        _ => &fwd, // stable: equal or unordered keeps input order
+                    };
+                    if sv != expect {
+                        v("sort-pair", i, j, None, expect.clone(), sv.clone());
+                    }
+                }
+            }
+        }
+    }
+    // transitivity on all triples (ordering and equality)
+    let idx: Vec<usize> = (0..n).collect();
+    let found: Vec<Vec<(usize, usize, usize, &'static str)>> = par_map(&idx, |&i| {
+        let mut out = vec![];
+        for j in 0..n {
+            for k in 0..n {
+                let ij = rows[i].dots[j];
+                let jk = rows[j].dots[k];
+                let ik = rows[i].dots[k];
+                if ij[3] == Some(true) && jk[3] == Some(true) && ik[3] != Some(true) {
+                    out.push((i, j, k, "transitivity-le"));
+                }
+                if ij[2] == Some(true) && jk[3] == Some(true) && ik[2] != Some(true) {
+                    out.push((i, j, k, "transitivity-lt"));
+                }
+                if ij[0] == Some(true) && jk[0] == Some(true) && ik[0] != Some(true) {
+                    out.push((i, j, k, "transitivity-eq"));
+                }
+            }
+        }
+        out
+    });
+    ctx.count(n * n * n);
+    ctx.set("triples", json!(n * n * n));
+    for (i, j, k, kind) in found.into_iter().flatten() {
+        v(kind, i, j, Some(k), "a R b and b R c imply a R c".into(), "violated".into());
+    }
+    ctx.sample(json!({"pair": [p[0].src(), p[1].src()], "ops": DOTS}));
+    ctx.sample(json!({"pair": [p[n - 2].src(), p[n - 1].src()], "ops": US}));
+    ctx.sample(json!({"triple": [p[26].src(), p[27].src(), p[29].src()]}));
+    for t in ["less", "equal", "greater", "unordered"] {
+        ctx.require_outcome(t, 20);
+    }
+    finish(
+        ctx,
+        "exploration",
+        "full pool x pool matrix of .== .!= .< .<= .> .>=, ugt/ult/ugte/ulte, the plain comparison operators and sort([a,b]) through the evaluator; laws on every pair, transitivity on every triple of the matrix, every entry compared with the harness's reference equality/ordering; distinct = ordered pairs",
+        true,
+        None,
+    )
 }
